@@ -69,7 +69,7 @@ Fixpoint eval_key (e : env) (args : list term) (idx : list nat) : option (list Z
 Fixpoint bind_new (e : env) (args : list term) (tup : tuple) : env :=
   match args, tup with
   | TVar x :: args', v :: tup' =>
-      match lookup e x with Some _ => bind_new e args' tup' | None => bind_new ((x, v) :: e) args' tup' end
+      match lookup e x with Some _ => bind_new e args' tup' | None => bind_new (bind x v e) args' tup' end
   | _ :: args', _ :: tup' => bind_new e args' tup'
   | _, _ => e
   end.
@@ -115,7 +115,7 @@ Fixpoint eval_items (items : list pitem) (e : env) : list env :=
   | PCond c :: rest => match sat_cond I e c with Some e' => eval_items rest e' | None => [] end
   | PGen x g xs :: rest =>
       match eval_vars e xs with
-      | Some vs => flat_map (fun v => eval_items rest ((x, v) :: e)) (gint I g vs)
+      | Some vs => flat_map (fun v => eval_items rest (bind x v e)) (gint I g vs)
       | None => [] end
   | PAgg out a bound r args idx :: rest =>
       match agg_key e args idx with
@@ -149,7 +149,7 @@ Fixpoint eval_from (items : list pitem) (sj : option nat) (reord : bool) (e : en
       | PCond c :: rest => match sat_cond I e c with Some e' => eval_from rest (Some n) reord e' | None => [] end
       | PGen x g xs :: rest =>
           match eval_vars e xs with
-          | Some vs => flat_map (fun v => eval_from rest (Some n) reord ((x, v) :: e)) (gint I g vs)
+          | Some vs => flat_map (fun v => eval_from rest (Some n) reord (bind x v e)) (gint I g vs)
           | None => [] end
       | PAgg out a bound r args idx :: rest =>
           match agg_key e args idx with
